@@ -38,7 +38,91 @@ func (p *Program) Callees(call ssa.CallInstruction) []*ssa.Function {
 			return []*ssa.Function{fn}
 		}
 	}
+	if prm, ok := c.Value.(*ssa.Parameter); ok {
+		if fs := p.paramFuncValues(prm); fs != nil {
+			return fs
+		}
+	}
 	return localFuncTable(c.Value)
+}
+
+// paramFuncValues: the called value is a function-typed parameter of a repository helper that is called directly from
+// exactly one place and never used as a value; the argument there is a function, a closure or a method value: that is
+// the callee.
+func (p *Program) paramFuncValues(prm *ssa.Parameter) []*ssa.Function {
+	fn := prm.Parent()
+	if fn == nil || !IsCustomFn(fn) {
+		return nil
+	}
+	if p.paramFn == nil {
+		p.paramFn = map[*ssa.Parameter][]*ssa.Function{}
+	}
+	if fs, ok := p.paramFn[prm]; ok {
+		return fs
+	}
+	p.paramFn[prm] = nil // cycle guard
+	idx := -1
+	for i, q := range fn.Params {
+		if q == prm {
+			idx = i
+		}
+	}
+	var out []*ssa.Function
+	ok := idx >= 0
+	sites := 0
+	for _, caller := range p.Funcs {
+		if !ok {
+			break
+		}
+		for _, b := range caller.Blocks {
+			for _, in := range b.Instrs {
+				var ops []*ssa.Value
+				for _, op := range in.Operands(ops) {
+					if op == nil || *op == nil || *op != ssa.Value(fn) {
+						continue
+					}
+					call, isCall := in.(ssa.CallInstruction)
+					if !isCall || call.Common().Value != ssa.Value(fn) || call.Common().IsInvoke() {
+						ok = false // the helper escapes as a value
+						continue
+					}
+				}
+				call, isCall := in.(ssa.CallInstruction)
+				if !isCall || call.Common().IsInvoke() || call.Common().StaticCallee() != fn {
+					continue
+				}
+				sites++
+				args := call.Common().Args
+				if idx >= len(args) {
+					ok = false
+					continue
+				}
+				switch a := args[idx].(type) {
+				case *ssa.Function:
+					if a.Blocks != nil {
+						out = append(out, a)
+					} else {
+						ok = false
+					}
+				case *ssa.MakeClosure:
+					if f, isF := a.Fn.(*ssa.Function); isF && f.Blocks != nil {
+						out = append(out, f)
+					} else {
+						ok = false
+					}
+				default:
+					ok = false
+				}
+			}
+		}
+	}
+	// with several call sites the union would attribute each caller's callback to every other caller (the callbacks of
+	// an iterator helper): only the exact case — one call site, as for an instantiation of a generic helper — is resolved
+	if !ok || sites != 1 {
+		return nil
+	}
+	p.paramFn[prm] = out
+	return out
 }
 
 // localFuncTable: the called value is an element read from a table (array / slice literal) of function values built
